@@ -64,6 +64,27 @@ def step (st : St Nat) (toks : List String) : St Nat × String :=
     match h.toNat?, parseCfg cfg, parseIdx bks, parseSigs sigs with
     | some h, some cfg, some bks, some sigs => let (s, o) := syncHeader des ver st h cfg bks sigs; (s, showOut o)
     | _, _, _, _ => (st, "bad-op")
+  | "hbatch" :: rest =>
+    let parse (tok : String) : Option (Nat × Cfg Nat × List Nat × List Sig) :=
+      match tok.splitOn "/" with
+      | [h, _n, cfg, bks, sigs] => do
+        let h ← h.toNat?; let cfg ← parseCfg cfg; let bks ← parseIdx bks; let sigs ← parseSigs sigs
+        pure (h, cfg, bks, sigs)
+      | _ => none
+    match (rest.filter (· != "|")).mapM parse with
+    | none => (st, "bad-op")
+    | some hs =>
+      -- the loop of SyncBlockHeader: stop at the first error, earlier effects stay in the store
+      let rec go (st : St Nat) : List (Nat × Cfg Nat × List Nat × List Sig) → St Nat × String
+        | [] => (st, "ok")
+        | (h, cfg, bks, sigs) :: tl =>
+          let (s, o) := syncHeader des ver st h cfg bks sigs
+          match o with
+          | .reject _ => (s, showOut o)
+          | _ => go s tl
+      let (s, o) := go st hs
+      let stored := sortU ((hs.map (·.1)).filter (fun h => s.hdrs.contains h))
+      (s, s!"{o} stored={joinNats stored}")
   | ["msg", h, bks, sigs] =>
     match h.toNat?, parseIdx bks, parseSigs sigs with
     | some h, some bks, some sigs => let (s, o) := syncMsg des ver st h bks sigs; (s, showOut o)
